@@ -28,6 +28,9 @@
  *   YMM <128 hex words> ymm0..15 before (4 words each, low first), then the clobber values; runs
  *                    save; clobber; restore on the 256-bit registers if the CPU has AVX, else on the xmm
  *                    registers (upper words then echo the clobber)              -> "YMM <avx> <64 hex words>"
+ *   YE <k> <s> <64 hex words>   like XE with the 256-bit registers ymm0..15 (AVX machines only): the libc
+ *                    stand-in overwrites them and ends with vzeroupper      -> "YE <ret> <errno_ok> <64 hex words after>"
+ *   YR <s> <64 hex words>       like XR with ymm0..15                        -> "YR <exits> <word> <errno_ok> <64 words>"
  *   XMM <64 hex words>  xmm0..15 before (lo hi ...), then the clobber values; runs
  *                    save; clobber; restore                                         -> "XMM <32 hex words>"
  *   QUIT
@@ -79,6 +82,12 @@ int clock_gettime(clockid_t id, struct timespec *ts)
 			     "pcmpeqd %%xmm15, %%xmm15\n" ::
 				     : "xmm0", "xmm1", "xmm2", "xmm3", "xmm4", "xmm5", "xmm6", "xmm7", "xmm8",
 				       "xmm9", "xmm10", "xmm11", "xmm12", "xmm13", "xmm14", "xmm15");
+	if (clobber_xmm == 2) /* AVX machine: what libc's AVX2 string functions leave: upper halves cleared */
+		asm volatile("vpcmpeqd %%ymm0, %%ymm0, %%ymm0\n vpcmpeqd %%ymm1, %%ymm1, %%ymm1\n"
+			     "vpcmpeqd %%ymm2, %%ymm2, %%ymm2\n vpcmpeqd %%ymm3, %%ymm3, %%ymm3\n"
+			     "vpcmpeqd %%ymm4, %%ymm4, %%ymm4\n vpcmpeqd %%ymm5, %%ymm5, %%ymm5\n"
+			     "vpcmpeqd %%ymm6, %%ymm6, %%ymm6\n vpcmpeqd %%ymm7, %%ymm7, %%ymm7\n"
+			     "vzeroupper\n" ::: "memory");
 	return 0;
 }
 
@@ -186,6 +195,19 @@ asm(".text\n .globl call_with_xmm\n .type call_with_xmm,@function\n call_with_xm
     X16(ST, "r12")
     " pop %rbp\n pop %r14\n pop %r13\n pop %r12\n pop %rbx\n ret\n"
     " .size call_with_xmm, .-call_with_xmm\n");
+
+/* the same with ymm0..15 (4 words each); only used when the CPU has AVX */
+unsigned long call_with_ymm(const uint64_t *before, uint64_t *after, void *fn, long a1, long a2, long a3);
+asm(".text\n .globl call_with_ymm\n .type call_with_ymm,@function\n call_with_ymm:\n"
+    " push %rbx\n push %r12\n push %r13\n push %r14\n push %rbp\n"
+    " mov %rdi, %rbx\n mov %rsi, %r12\n mov %rdx, %r13\n"
+    " mov %rcx, %rdi\n mov %r8, %rsi\n mov %r9, %rdx\n"
+    X16(LDY, "rbx")
+    " call *%r13\n"
+    X16(STY, "r12")
+    " vzeroupper\n"
+    " pop %rbp\n pop %r14\n pop %r13\n pop %r12\n pop %rbx\n ret\n"
+    " .size call_with_ymm, .-call_with_ymm\n");
 
 static void read_words(char *p, uint64_t *w, int n)
 {
@@ -340,6 +362,51 @@ static void do_op(char *line)
 			pword(slots[s]);
 			printf(" %d", ok);
 			for (i = 0; i < 32; i++)
+				printf(" %llx", (unsigned long long)after[i]);
+		}
+		else if (!strcmp(op, "YE") && __builtin_cpu_supports("avx")) {
+			struct mcount_regs regs;
+			static __thread uint64_t before[64], after[64];
+			int r, i, e;
+			strtok(line, " ");
+			k = atoi(strtok(NULL, " "));
+			s = strtoul(strtok(NULL, " "), NULL, 10);
+			read_words(strtok(NULL, "\n"), before, 64);
+			memset(&regs, 0, sizeof(regs));
+			memset(after, 0xee, sizeof(after));
+			clobber_xmm = 2;
+			errno = 77;
+			r = (int)call_with_ymm(before, after, (void *)mcount_entry, (long)SLOT(s),
+					       (long)funcs[k % NFUNC] + 4, (long)&regs);
+			e = errno;
+			clobber_xmm = 0;
+			printf("YE %d %d", r, e == 77);
+			for (i = 0; i < 64; i++)
+				printf(" %llx", (unsigned long long)after[i]);
+		}
+		else if (!strcmp(op, "YR") && __builtin_cpu_supports("avx")) {
+			long rv[4] = { 42, 43, 0, 0 };
+			static __thread uint64_t before[64], after[64];
+			unsigned long *sl;
+			int n = 0, ok = 1, i;
+			strtok(line, " ");
+			s = strtoul(strtok(NULL, " "), NULL, 10) % NSLOT;
+			sl = SLOT(s);
+			read_words(strtok(NULL, "\n"), before, 64);
+			memcpy(after, before, sizeof(after));
+			while (mcount_return_fn && *sl == mcount_return_fn && mtd.idx > 0 && n < 100000) {
+				clobber_xmm = 2;
+				errno = 55;
+				*sl = call_with_ymm(before, after, (void *)mcount_exit, (long)rv, 0, 0);
+				if (errno != 55)
+					ok = 0;
+				clobber_xmm = 0;
+				n++;
+			}
+			printf("YR %d", n);
+			pword(*sl);
+			printf(" %d", ok);
+			for (i = 0; i < 64; i++)
 				printf(" %llx", (unsigned long long)after[i]);
 		}
 		else if (!strcmp(op, "YMM")) {
